@@ -15,7 +15,7 @@ ALSO = {  # further checks worth running for a property's seeded changes (C20 ca
     "C02": ["C05", "C20"], "C03": ["C05", "C20"], "C04": ["C05", "C20"], "C07": ["C05", "C20"], "C08": ["C05", "C10", "C20"], "C09": ["C05", "C20"],
     "C10": ["C05", "C08", "C20"], "C01": ["C05", "C04", "C20"], "C05": ["C09", "C07", "C08", "C10", "C20", "C03"], "C06": ["C05", "C20"],
     "C11": ["C12"], "C12": ["C11", "C13"], "C13": ["C12", "C04"], "C14": ["C15", "C19"], "C15": ["C14", "C19"],
-    "C16": ["C17", "C15"], "C17": ["C16", "C18"], "C18": ["C17"], "C19": ["C15", "C14"], "C20": ["C04"],
+    "C16": ["C17", "C15"], "C17": ["C16", "C18"], "C18": ["C17", "C19"], "C19": ["C15", "C14"], "C20": ["C04"],
 }
 
 
